@@ -47,17 +47,22 @@ def D_coerce(t, v):
 class World:
     def __init__(self):
         self.ids = {}
+        self.ids[self.key(None)] = "unset"
 
-    def build(self, k, shape, name="t/c%d"):
+    def build(self, k, shape, name="t/c%d", unset=()):
+        """unset: names of fields left None -- an unset value is a value like any other: the record HAS the field"""
         from flow.record import RecordDescriptor
 
         D = RecordDescriptor(name % k if "%" in name else name, [(t, n) for n, t in shape])
         vals, vids = {}, {}
         for n, t in shape:
             vals[n], vids[n] = value_for(k, n, t)
+            if n in unset:
+                vals[n], vids[n] = None, "unset"
         rec = D(**vals, _generated=gen.GEN, _source=f"src{k}")
         for n, t in shape:
-            self.ids[self.key(getattr(rec, n))] = vids[n]
+            if n not in unset:
+                self.ids[self.key(getattr(rec, n))] = vids[n]
         return rec
 
     @staticmethod
@@ -107,7 +112,9 @@ def run(tier):
         if mode == 2:
             shp = [[(n, ctx.rnd.choice(TYPES)) for n, _ in shp[0]]] + shp[1:]   # same names, other types
         samename = mode in (1, 2, 3)                      # descriptors sharing one type name
-        recs = [W.build(j + 1, s, name=("t/same" if samename else "t/c%d")) for j, s in enumerate(shp)]
+        # every third list leaves some fields unset (None): also in the record that wins
+        unsets = [[n for n, t in s if i % 3 == 2 and ctx.rnd.random() < 0.5] for s in shp]
+        recs = [W.build(j + 1, s, name=("t/same" if samename else "t/c%d"), unset=unsets[j]) for j, s in enumerate(shp)]
         proj = [W.project(r) for r in recs]
         before = [json.dumps(observe.obs_record(r), sort_keys=True) for r in recs]
         for replace in (False, True):
@@ -139,6 +146,27 @@ def run(tier):
                 c["raised"], c["exc"] = True, type(e).__name__ + ":" + str(e)[:80]
             cases.append(c)
             ctx.case(("group", json.dumps(shp)))
+            # the same grouped record seen through its dict view, and used as the FIRST record of an extension
+            c2 = base_case("group", proj)
+            try:
+                g = GroupedRecord("g/x", recs)
+                types = {n: t for t, n in g._desc.get_field_tuples()}
+                c2["res"] = [[{"n": n, "t": types.get(n, "?"), "v": W.ids.get(W.key(v), "?")} for n, v in g._asdict().items() if not n.startswith("_")]]
+            except Exception as e:
+                c2["raised"], c2["exc"] = True, type(e).__name__ + ":" + str(e)[:80]
+            cases.append(c2)
+            ctx.case(("group-asdict", json.dumps(shp)))
+            if not c["raised"]:
+                other = W.build(4, shapes(ctx.rnd, 1, 3)[0])
+                for replace in (False, True):
+                    c3 = base_case("extend", [c["res"][0], W.project(other)], replace=replace)
+                    try:
+                        res = extend_record(GroupedRecord("g/x", recs), [other], replace=replace)
+                        c3["res"] = [W.project(res)]
+                    except Exception as e:
+                        c3["raised"], c3["exc"] = True, type(e).__name__ + ":" + str(e)[:80]
+                    cases.append(c3)
+                    ctx.case(("extend-grouped", json.dumps(shp), replace))
     # timestamp expansion: every ordered choice of <= 3 names x types
     ts_shapes = []
     for nf in (1, 2, 3):
@@ -147,8 +175,8 @@ def run(tier):
                 ts_shapes.append(list(zip(names, types)))
     if not thorough:
         ts_shapes = ctx.rnd.sample(ts_shapes, 500)
-    for shp in ts_shapes:
-        rec = W.build(1, shp)
+    for si_, shp in enumerate(ts_shapes):
+        rec = W.build(1, shp, unset=[n for n, t in shp if si_ % 4 == 3 and ctx.rnd.random() < 0.5])
         before = json.dumps(observe.obs_record(rec), sort_keys=True)
         c = base_case("ts", [W.project(rec)])
         try:
